@@ -106,6 +106,7 @@ func init() {
 		}
 		return nil
 	})
+	reg(zz+"ResetEnv", func(fr *frame, args []value) value { fr.i.clock = 0; fr.i.uuidSeq = 0; return nil })
 	reg(zz+"Unwind", func(fr *frame, args []value) value { fr.i.ex.unwind = args[0].(int); return nil })
 	reg(zz+"SymbolicMapOrder", func(fr *frame, args []value) value { fr.i.ex.symOrder = args[0].(bool); return nil })
 
